@@ -689,6 +689,100 @@ func isReaderType(t types.Type) bool {
 
 // consumesOnSuccess: every nil-error return of fn is preceded (dominated) by a read of >= 1
 // octet from parameter pi whose failure makes fn return a non-nil error.
+// nextConsumes: the slice returned by buf.Next(..) is tested for its length, and every return of
+// a nil error is dominated by the arm on which that length is at least 1 (`len(f) == 2`,
+// `len(f) >= 1`, `len(f) > 0`, `len(f) != 0`): a successful call has consumed an octet.
+func (sa *Safe) nextConsumes(fn *ssa.Function, next *ssa.Call, nres int) bool {
+	var lens []ssa.Value
+	for _, ref := range *next.Referrers() {
+		if c, ok := ref.(*ssa.Call); ok {
+			if b, isB := c.Call.Value.(*ssa.Builtin); isB && b.Name() == "len" && c.Call.Args[0] == ssa.Value(next) {
+				lens = append(lens, c)
+			}
+		}
+	}
+	if len(lens) == 0 {
+		return false
+	}
+	isLen := func(v ssa.Value) bool {
+		for _, l := range lens {
+			if l == v {
+				return true
+			}
+		}
+		return false
+	}
+	var okArms []*ssa.BasicBlock
+	for _, b := range fn.Blocks {
+		iff, ok := b.Instrs[len(b.Instrs)-1].(*ssa.If)
+		if !ok {
+			continue
+		}
+		cond, ok := iff.Cond.(*ssa.BinOp)
+		if !ok || !isLen(cond.X) {
+			continue
+		}
+		c, okc := constInt(cond.Y)
+		if !okc {
+			continue
+		}
+		arm := -1
+		switch cond.Op {
+		case token.EQL:
+			if c >= 1 {
+				arm = 0
+			} else if c == 0 {
+				arm = 1
+			}
+		case token.NEQ:
+			if c == 0 {
+				arm = 0
+			}
+		case token.GEQ:
+			if c >= 1 {
+				arm = 0
+			}
+		case token.GTR:
+			if c >= 0 {
+				arm = 0
+			}
+		case token.LSS:
+			if c >= 1 {
+				arm = 1
+			}
+		case token.LEQ:
+			if c >= 0 {
+				arm = 1
+			}
+		}
+		if arm >= 0 && len(b.Succs[arm].Preds) == 1 {
+			okArms = append(okArms, b.Succs[arm])
+		}
+	}
+	if len(okArms) == 0 {
+		return false
+	}
+	for _, rb := range fn.Blocks {
+		ret, isRet := rb.Instrs[len(rb.Instrs)-1].(*ssa.Return)
+		if !isRet {
+			continue
+		}
+		if c, isC := ret.Results[nres-1].(*ssa.Const); !isC || c.Value != nil {
+			continue // an error return
+		}
+		dominated := false
+		for _, a := range okArms {
+			if a.Dominates(rb) {
+				dominated = true
+			}
+		}
+		if !dominated {
+			return false
+		}
+	}
+	return true
+}
+
 func (sa *Safe) consumesOnSuccess(fn *ssa.Function, pi int, depth int) bool {
 	if fn.Blocks == nil || pi >= len(fn.Params) || depth > 4 {
 		return false
@@ -709,6 +803,10 @@ func (sa *Safe) consumesOnSuccess(fn *ssa.Function, pi int, depth int) bool {
 				continue
 			}
 			okRead := false
+			if callee.String() == "(*bytes.Buffer).Next" && call.Call.Args[0] == ssa.Value(param) && sa.nextConsumes(fn, call, nres) {
+				// field := buf.Next(k); every nil-error return lies behind a test that field has >= 1 octets
+				return true
+			}
 			if consumingReads[callee.String()] {
 				a0 := call.Call.Args[0]
 				if mi, ok := a0.(*ssa.MakeInterface); ok {
